@@ -21,7 +21,9 @@ def main():
         mc=[('MC_SpinePaths', 'MC_SpinePaths_c06.cfg', 'MC_SpinePaths(ProjectionLaw)')],
         populations=[('main', dp.sess_c06, 150, 2500, {}),
                      # cells that look like null tokens but are not: their lines survive every projection that keeps their spine
-                     ('dots', dp.sess_c06, 90, 600, {'dots': True})],
+                     ('dots', dp.sess_c06, 90, 600, {'dots': True}),
+                     # added spines, several sections, documents without any measure: the header line of a projection may be a later line
+                     ('added_spines_sections_no_measures', dp.sess_c06_ext, 40, 400, {})],
         nontrivial=lambda s: {'multi-spine', 'split'} <= set(s['tags']))
 
 
